@@ -12,7 +12,7 @@ claimed = {
    note="Sequentially consistent interleavings only: the hardware/compiler memory-model half of 'safe publication' is not observable and not claimed. Trusted: scheduler, simulated Mutex, yield-wrapped sync.Map and atomics.",
    tech="deterministic simulation: seeded scheduler over substituted sync/atomic, counting + ordering oracle"),
  "C05": dict(cat="exploration", ref="3 (C05)",
-   text="Seeded histories (Put/PutBytes/Get/GetBytes/GetFile/OutputFile) over a small id space with damage at rest injected between operations (truncate, extend, flip, delete, replace, 12 kinds of nearly valid index entries), checked step by step against a reference map: undamaged entries read back exactly; whatever the disk state, GetBytes is not-found or hash-valid, GetFile not-found or size-valid, nothing panics; a Put of the same content repairs a damaged output.",
+   text="Seeded histories (Put/PutBytes/Get/GetBytes/GetFile/OutputFile) over a small id space with damage at rest injected between operations (truncate, extend, flip, delete, replace, 23 kinds of nearly valid index entries), checked step by step against a reference map: undamaged entries read back exactly; whatever the disk state, GetBytes is not-found or hash-valid, GetFile not-found or size-valid, nothing panics; a Put of the same content repairs a damaged output.",
    note="Single task, no I/O faults (C11/C12 cover those). Any lookup error counts as not-found. File system is the real kernel's in a private directory.",
    tech="deterministic simulation: seeded operation/damage histories against a reference map (fault = damage at rest)"),
  "C13": dict(cat="exploration", ref="3 (C13)",
